@@ -170,16 +170,20 @@ Proof.
   - apply (sub_all_nodup ws). exact NU.
 Qed.
 
-Lemma step_wf s o : wf_info (st_info s) -> wf_info (st_info (sr_state (step s o))).
+Lemma step_wf o : forall s, inv_valid s -> wf_info (st_info s) -> wf_info (st_info (sr_state (step s o))).
 Proof.
-  intro WF. destruct o as [|ws|idxs|i|i req new|i origin]; simpl; try exact WF; try (apply commit_wf; exact WF).
+  induction o as [|ws|idxs|i|i req new|i origin|inner IH]; intros s IV WF; simpl; try exact WF; try (apply commit_wf; exact WF).
   - destruct (nth_error _ _); simpl; [apply commit_wf|]; exact WF.
   - destruct (nth_error _ _); simpl; [apply commit_wf|]; exact WF.
+  - destruct (failed_commit_state s inner IV) as (_ & _ & [E|E]); simpl in E; rewrite E; [exact WF|].
+    destruct IV as (_ & NC & NN). destruct (written_back_maps _ NC NN) as (M1 & _ & _).
+    destruct WF as (W1 & W2 & W3). unfold wf_info. cbn [ni_cap ni_usage]. rewrite M1. auto.
 Qed.
 
-Lemma run_wf h : forall s, wf_info (st_info s) -> wf_info (st_info (run s h)).
+Lemma run_wf h : forall s, inv_valid s -> wf_info (st_info s) -> wf_info (st_info (run s h)).
 Proof.
-  unfold run. induction h as [|o t IH]; intros s WF; simpl; [exact WF|]. apply IH. apply step_wf. exact WF.
+  unfold run. induction h as [|o t IH]; intros s IV WF; simpl; [exact WF|].
+  apply IH; [apply step_valid; exact IV|apply step_wf; assumption].
 Qed.
 
 Lemma run_cap h : forall s, ni_cap (st_info (run s h)) = ni_cap (st_info s).
@@ -190,7 +194,7 @@ Qed.
 (* after any history: a core is shared out iff its capacity minus the pieces
    held by the live workloads leaves at least shareBase (or no core does) *)
 Theorem remap_after_history info h base :
-  wf_info info -> usage_zero (ni_usage info) -> Forall op_wf h ->
+  inv_valid (mkState info []) -> wf_info info -> usage_zero (ni_usage info) -> Forall op_wf h ->
   let s := run (mkState info []) h in
   let free c := lookup 0 (nr_cpumap (ni_cap info)) c - zs (fun w => lookup 0 (wr_cpumap w) c) (st_live s) in
   let share := share_cpumap (st_info s) base in
@@ -199,9 +203,9 @@ Theorem remap_after_history info h base :
   ((exists c, roomy' c) -> forall c, In c (keys share) <-> roomy' c) /\
   ((~ exists c, roomy' c) -> keys share = keys (nr_cpumap (ni_cap info))).
 Proof.
-  intros WF UZ OW s free share roomy'.
-  pose proof (run_wf h (mkState info []) WF) as WFs. fold s in WFs.
-  pose proof (exact_int_all_histories info h UZ OW) as [EC _]. fold s in EC.
+  intros IV WF UZ OW s free share roomy'.
+  pose proof (run_wf h (mkState info []) IV WF) as WFs. fold s in WFs.
+  pose proof (exact_int_all_histories info h IV UZ OW) as [EC _]. fold s in EC.
   assert (CAP : ni_cap (st_info s) = ni_cap info) by (apply (run_cap h (mkState info []))).
   destruct (share_spec (st_info s) base WFs) as (S1 & S2 & S3). fold share in S1, S2, S3.
   assert (RR : forall c, roomy (st_info s) base c <-> roomy' c).
